@@ -390,6 +390,7 @@ def segs (strk : Bool) (r : List (List Val)) : Option Val :=
 mutual
 def vmatch : Val → Val → Bool
   | .list xs, .list ys => vmatchL xs ys
+  | .int a, .int b => a == b          -- integers are compared with "=" (exactly)
   | a, b =>
     match toF a, toF b with
     | some x, some y => x == y
@@ -494,6 +495,18 @@ where
     | [] => []
     | y :: ys => flattenAll y ++ flattenList ys
 
+/-- a character is paired with a string somewhere: klongpy identifies 0ca with "a" under its own
+    = / ~; the reference does not define that comparison -/
+def charStrClash : Val → Val → Bool
+  | .chr _, .str _ => true
+  | .str _, .chr _ => true
+  | .list xs, .list ys => clashL xs ys
+  | _, _ => false
+where
+  clashL : List Val → List Val → Bool
+    | x :: xs, y :: ys => charStrClash x y || clashL xs ys
+    | _, _ => false
+
 /-! ## verb tables -/
 
 def aopOf : String → Option AOp
@@ -547,7 +560,7 @@ def refDyad (verb : String) (a b : Val) : Option Val :=
         | .str cs => segs true (refCut ps (strChars cs))
         | _ => none
       | none => none
-    | "~", a, b => some (b2i (vmatch a b))
+    | "~", a, b => if charStrClash a b then none else some (b2i (vmatch a b))
     | ",", a, b => refJoin a b
     | "@", a, b => refIndex a b
     | "?", .list es, b =>
